@@ -73,6 +73,14 @@ def payload(t, variant, i):
         if t[1] == variant:
             return t[2][i] if i < len(t[2]) else ("unk", "payload index")
         return ("unk", f"payload of {t[1]} as {variant}")
+    if t[0] == "varn":
+        # a struct-like variant: the payload is selected by field name
+        if t[1] == variant:
+            for f, v in t[2]:
+                if f == i:
+                    return v
+            return ("unk", f"no field {i}")
+        return ("unk", f"payload of {t[1]} as {variant}")
     return ("payload", t, variant, i)
 
 
@@ -206,6 +214,7 @@ class Interp:
         self.reads = {}                   # rid -> {"prim":, "n":, "loc":}
         self.loop_stack = []              # domains of the enclosing loops
         self.const_env = [{}]             # const-generic parameter values of the function being inlined
+        self.type_env = [{}]              # type parameters of the function being inlined -> the types of this call
         self.break_envs = []              # per enclosing loop: [(cond, env at a `break`)] — merged into the env after the loop
         self.notes = []
         self.cond_stack = []
@@ -723,7 +732,16 @@ class Interp:
             if r is False:
                 continue
             if "guard" in arm:
-                raise Unsupported("match guard")
+                # a guard is a pure test over the arm's bindings: the arm applies when the pattern matches AND it holds
+                e_g = dict(env)
+                self.bind(arm["pat"], t, e_g)
+                g = self.eval(arm["guard"], e_g)
+                if g[0] == "c":
+                    g = bool(g[1])
+                if g is False:
+                    continue
+                if g is not True:
+                    r = g if r is True else ("and", (r, g))
 
             def thunk(e2, arm=arm):
                 self.bind(arm["pat"], t, e2)
@@ -957,6 +975,7 @@ class Interp:
                 self.bind(p, a, e2)
             self.depth -= 1
             self.const_env.append(const_args(fn, n))
+            self.type_env.append(type_args(fn, n, self.type_env[-1]))
             try:
                 return self.eval(fn.body, e2)
             except Exit as e:
@@ -965,6 +984,7 @@ class Interp:
                 raise
             finally:
                 self.const_env.pop()
+                self.type_env.pop()
                 self.depth += 1
         return ("app", path or generic or "?", tuple(args))
 
@@ -1138,8 +1158,14 @@ class Interp:
 
     def convert(self, v, src_ty, tgt_ty, path, n):
         src_ty = (src_ty or "").lstrip("&").strip()
+        src_ty = self.type_env[-1].get(src_ty, src_ty)
+        tgt_ty = self.type_env[-1].get(tgt_ty, tgt_ty)
         if tgt_ty == src_ty:
             return v
+        # From between primitive scalars is the lossless `as` cast
+        PRIM = {"u8", "u16", "u32", "u64", "u128", "usize", "i8", "i16", "i32", "i64", "i128", "isize", "f32", "f64", "bool", "char"}
+        if tgt_ty in PRIM and src_ty in PRIM:
+            return ("cast", tgt_ty, v)
         # Into<Variant>: wrap in the variant whose payload type is the source type
         adt = self.prog.adts.get(tgt_ty)
         if adt is not None and adt["kind"] == "Enum":
@@ -1181,6 +1207,45 @@ class Interp:
 
 
 # ---------------------------------------------------------------------------- path enumeration over events
+
+def split_generic_args(s):
+    """top-level comma split of `A, B<C, D>, fn(E) -> F`"""
+    out, depth, cur = [], 0, ""
+    for i, ch in enumerate(s):
+        if ch in "<([{":
+            depth += 1
+        elif ch in ">)]}" and not (ch == ">" and i > 0 and s[i - 1] == "-"):
+            depth -= 1
+        if ch == "," and depth == 0:
+            out.append(cur.strip())
+            cur = ""
+        else:
+            cur += ch
+    if cur.strip():
+        out.append(cur.strip())
+    return out
+
+
+def type_args(fn, call_node, outer=None):
+    """{type parameter name: concrete type} for an inlined call of a generic function, from the callee's generic
+    parameter names (fact `generics`) and the instantiation recorded at the call (`path::<A, B>`)"""
+    names = fn.d.get("generics") or []
+    if call_node is None or not names:
+        return {}
+    f = call_node.get("f") if call_node.get("k") == "Call" else None
+    da = (f or {}).get("defargs") or call_node.get("defargs") or ""
+    i = da.rfind("::<")
+    if i < 0 or not da.endswith(">"):
+        return {}
+    args = [a for a in split_generic_args(da[i + 3:-1]) if not a.startswith("'")]
+    if len(args) != len(names):
+        return {}
+    out = dict(zip(names, args))
+    # arguments that are themselves parameters of the caller resolve through the caller's environment
+    if outer:
+        out = {k: outer.get(v, v) for k, v in out.items()}
+    return out
+
 
 def const_args(fn, call_node):
     """{const generic name: value} for an inlined call, read off by unifying the callee's declared return type with the
